@@ -122,7 +122,16 @@ class Grad:
         if d1 <= d0:
             s = self.stops[-1]
             return s[1] + (s[2],)
-        x = d0 + self._wrap((t - d0) / (d1 - d0)) * (d1 - d0)
+        u = (t - d0) / (d1 - d0)
+        if self.extend == "pad":
+            # beyond the ends the line shows the outermost stop of a stack of hard stops, not the first one at that offset
+            if u >= 1.0 and t >= self.stops[-1][0]:
+                s = self.stops[-1]
+                return s[1] + (s[2],)
+            if u <= 0.0 and t <= self.stops[0][0]:
+                s = self.stops[0]
+                return s[1] + (s[2],)
+        x = d0 + self._wrap(u) * (d1 - d0)
         return self._ramp(x)[0]
 
     def _ramp(self, x):
